@@ -323,6 +323,16 @@ def load_known() -> list[dict[str, Any]]:
     return out
 
 
+def out_dir() -> str:
+    """Where replays/ and evidence/ go: /verif for the repository itself; a run against any other tree
+    (VERIF_REPO: a scratch copy with a seeded change) must not overwrite the evidence of /repo."""
+    if os.environ.get("VERIF_OUT"):
+        return os.environ["VERIF_OUT"]
+    if os.path.realpath(repo_path()) != os.path.realpath("/repo"):
+        return os.path.join(ROOT, "scratch", "alt-tree")
+    return ROOT
+
+
 def known_match(v: dict[str, Any], known: list[dict[str, Any]]) -> dict[str, Any] | None:
     """A violation is a listed finding when the entry's property matches and every ``match`` regex
     fully matches the violation's field (for list-valued fields: some element).  Entries with
@@ -445,8 +455,9 @@ def _check_info(check: str) -> dict[str, Any]:
 def finish(check: str, tier: str, base: int, agg: dict[str, Any], trouble: list[str], wall: float,
            info: dict[str, Any], tmpdir: str) -> int:
     known = load_known()
-    os.makedirs(os.path.join(ROOT, "replays", check), exist_ok=True)
-    os.makedirs(os.path.join(ROOT, "evidence"), exist_ok=True)
+    out_root = out_dir()
+    os.makedirs(os.path.join(out_root, "replays", check), exist_ok=True)
+    os.makedirs(os.path.join(out_root, "evidence"), exist_ok=True)
     new_vs: list[dict[str, Any]] = []
     known_hits: dict[str, dict[str, Any]] = {}
     for v in agg["violations"]:
@@ -464,7 +475,7 @@ def finish(check: str, tier: str, base: int, agg: dict[str, Any], trouble: list[
     for sig, vs in by_sig.items():
         confirmed = None
         for v in vs[:3]:
-            path = os.path.join(ROOT, "replays", check, f"{v['replay'].get('seed', 0)}-{_short(sig)}.json")
+            path = os.path.join(out_root, "replays", check, f"{v['replay'].get('seed', 0)}-{_short(sig)}.json")
             doc = {"format": 1, "check": check, "tree": git_describe(repo_path()), "violation": {k: x for k, x in v.items() if k != "replay"},
                    "replay": v["replay"]}
             json.dump(doc, open(path, "w"), indent=1, default=str)
@@ -524,7 +535,7 @@ def finish(check: str, tier: str, base: int, agg: dict[str, Any], trouble: list[
         "wall_s": round(wall, 2),
         "violations": len(reported),
     }
-    json.dump(ev, open(os.path.join(ROOT, "evidence", f"{check}.json"), "w"), indent=1, default=str)
+    json.dump(ev, open(os.path.join(out_root, "evidence", f"{check}.json"), "w"), indent=1, default=str)
     try:
         import shutil
 
